@@ -2,7 +2,8 @@
 import json, os, re
 from lib import fw
 
-MODULES = ["SunriseVerif.Props.C10", "SunriseVerif.Props.C10Kernel", "SunriseVerif.Props.C10Accrual", "SunriseVerif.Witness.C10", "SunriseVerif.Props.C10Refine", "SunriseVerif.Props.C10RefineRun"]
+MODULES = ["SunriseVerif.Props.C10", "SunriseVerif.Props.C10Kernel", "SunriseVerif.Props.C10Accrual", "SunriseVerif.Witness.C10", "SunriseVerif.Props.C10Refine", "SunriseVerif.Props.C10RefineRun",
+           "SunriseVerif.Props.TieShare"]
 PROVED_PREDS = None  # every Spec/C10 statement is evaluated; (T) ones are test-level evidence only
 
 
@@ -18,7 +19,7 @@ def features(f):
 def run(ctx):
     if not ctx.translate():
         return
-    ok = ctx.prove(MODULES, needs_gen=["KernelsShare"])
+    ok = ctx.prove(MODULES, needs_gen=["KernelsShare", "KernelsTieShare"])
     # 1. the decimal model and the regenerated kernels against the real Go functions
     mism = ctx.kernel_diff("share", 4000 if ctx.thorough() else 500, label="kernel_share")
     if mism:
